@@ -5,6 +5,7 @@ import FitProps.C09
 import FitProps.WriterCrashLemmas
 import FitProps.WriterShortLemmas
 import FitProps.WriterPanicLemmas
+import FitProps.WriterCtxLemmas
 /-!
 # C11 — Destination failures surface as errors; incomplete output is never a valid file
 
@@ -489,6 +490,55 @@ theorem C11_panic_guards_witness :
     (Witness.wOverfull.writeG false Witness.healthy [7]).isPanic = true ∧
     (runEncCalls passThrough pinnedCtxCfg false Witness.healthy Witness.o ⟨Enc.new Witness.o .seek 4 ⟨[], 0, []⟩, false⟩
       [⟨none, ⟨Witness.h, 0, [Witness.m1]⟩⟩, ⟨some 0, ⟨Witness.h, 0, [Witness.m1, Witness.m2]⟩⟩]).isPanic = false := by
+  decide +kernel
+
+/-! ### `EncodeWithContext`: a cancelled context -/
+
+/-- A CANCELLATION THAT IS OBSERVED SURFACES. `EncodeWithContext` polls the context once per message — in the dry run of the
+early-check strategy and in the real pass (`ctxPolls`: `n` polls for a random-access destination, `2·n` for a plain
+writer). For every validator, fault schedule, option set and encoder state (not left on `io.Discard`), a context that is
+cancelled before poll number `k` of the call (`k` < the polls the call makes for the messages validation lets through):
+(1) the call NEVER reports success: it returns `ctx.Err()` (`.ec`), the destination's error when an operation failed first,
+    or the validation error;
+(2) WHAT IS WRITTEN before the cancellation is observed: `encodeMessagesWithContext` has done exactly `encodeMessages` of the
+    first `k` messages — no CRC, no header update, no flush follow (the file header went out before it): the destination has
+    seen only a prefix of the operations of the uncancelled call;
+(3) observed in the dry run (plain writer, `k` < number of messages): no destination operation at all and the writer state
+    untouched — the encoder is left on `io.Discard` by the code as pinned (finding KF-C09-ctx-discard, `C09_ctx_discard_witness`),
+    usable by the repaired code. -/
+theorem C11_ctx_cancel_surfaces {σ : Type} (V : MsgValidator σ) (cc : CtxCfg) (F : Faults) (o : Opts) :
+    (∀ (k : Nat) (e : Enc) (f : FitIn),
+      (∀ ms', validateAll V V.init f.msgs = some ms' → k < ctxPolls e.w.kind ms'.length) →
+      (encodeCtxV V cc F o (some k) ⟨e, false⟩ f).2 ≠ .ok) ∧
+    (∀ (ms : List WMsg) (k : Nat) (e : Enc), k < ms.length →
+      (encodeMessagesCtx F o (some k) e ms).1 = (encodeMessages F o e (ms.take k)).1 ∧
+      (encodeMessagesCtx F o (some k) e ms).2.2 = (if (encodeMessages F o e (ms.take k)).2 then .ec else .err)) ∧
+    (∀ (k : Nat) (e : Enc) (f : FitIn), e.w.kind.direct = false → k < f.msgs.length →
+      encodeCtx cc F o (some k) ⟨e, false⟩ f = (⟨e.reset o, !cc.restoresWriter⟩, .ec)) := by
+  refine ⟨fun k e f hk => ?_, encodeMessagesCtx_cancel F o, fun k e f hd hlt => encodeCtx_cancel_dry cc F o k e f hd hlt⟩
+  unfold encodeCtxV
+  split
+  · simp
+  · split
+    · simp
+    · cases hv : validateAll V V.init f.msgs with
+      | none => simp
+      | some ms' =>
+        simp only
+        rcases encodeCtx_cancel cc F o k e { f with msgs := ms' } (hk ms' hv) with h | h <;> rw [h] <;> simp
+
+/-- not vacuous: an unbuffered WriteSeeker, two messages, the context cancelled before the second poll — the call returns
+`ctx.Err()`, the destination has seen the header write and the two writes of the first message (3 of the 8 operations of the
+uncancelled call, in full) and holds 25 bytes that the integrity check rejects -/
+example :
+    (encodeCtxV passThrough pinnedCtxCfg noFault Witness.o (some 1) ⟨Enc.new Witness.o .seek 0 ⟨[], 0, []⟩, false⟩
+      ⟨Witness.h, 0, [Witness.m1, Witness.m2]⟩).2 = .ec ∧
+    (encodeCtxV passThrough pinnedCtxCfg noFault Witness.o (some 1) ⟨Enc.new Witness.o .seek 0 ⟨[], 0, []⟩, false⟩
+      ⟨Witness.h, 0, [Witness.m1, Witness.m2]⟩).1.e.w.d.log.reverse =
+      (encodeV passThrough noFault Witness.o (Enc.new Witness.o .seek 0 ⟨[], 0, []⟩) ⟨Witness.h, 0, [Witness.m1, Witness.m2]⟩).1.w.d.log.reverse.take 3 ∧
+    (encodeV passThrough noFault Witness.o (Enc.new Witness.o .seek 0 ⟨[], 0, []⟩) ⟨Witness.h, 0, [Witness.m1, Witness.m2]⟩).1.w.d.log.length = 8 ∧
+    Fit.Integrity.checkIntegrity (encodeCtxV passThrough pinnedCtxCfg noFault Witness.o (some 1) ⟨Enc.new Witness.o .seek 0 ⟨[], 0, []⟩, false⟩
+      ⟨Witness.h, 0, [Witness.m1, Witness.m2]⟩).1.e.w.d.content = .err .notFit 0 := by
   decide +kernel
 
 end Fit.C11
